@@ -63,3 +63,7 @@ Fixpoint first_false (i : nat) (l : list bool) : option nat :=
 (* summary of a list of per-case verdicts: (n, n_bad, first_bad) *)
 Definition summary (l : list bool) : nat * nat * option nat :=
   (List.length l, (List.length l - count_true l)%nat, first_false 0 l).
+
+Fixpoint bad_idx (i : nat) (l : list bool) : list nat :=
+  match l with [] => [] | b :: l' => if b then bad_idx (S i) l' else i :: bad_idx (S i) l' end.
+Definition report (l : list bool) : nat * list nat := (List.length l, bad_idx 0 l).
